@@ -794,7 +794,8 @@ class Shape:
                 red = axes.pop(ax)
                 return Arr(tuple(axes), Q(a0.elem.dim, a0.elem.tags | {'ptp:%s' % red}))
             return UNK
-        if np_ in ('abs', 'absolute', 'ascontiguousarray', 'asarray', 'array', 'atleast_1d', 'atleast_2d', 'atleast_3d', 'round', 'copy', 'squeeze', 'nan_to_num', 'float32', 'float64', 'int32', 'int64'):
+        if np_ in ('abs', 'absolute', 'ascontiguousarray', 'asarray', 'array', 'atleast_1d', 'atleast_2d', 'atleast_3d', 'round', 'around', 'rint', 'floor', 'ceil', 'trunc', 'fix',
+                   'copy', 'squeeze', 'nan_to_num', 'float32', 'float64', 'int32', 'int64', 'intp', 'uint64', 'uint32'):
             if isinstance(a0, ListT) and np_ in ('array', 'asarray'):
                 if isinstance(a0.elem, Arr):
                     return Arr((a0.axis or Space('ListAx', a0.vid),) + a0.elem.axes, a0.elem.elem)
